@@ -11,8 +11,10 @@ from gen import RW
 
 def main():
     seed = int(sys.argv[1]); out = sys.argv[2]
+    db = len(sys.argv) > 3 and sys.argv[3] == "db"        # the SQLite object store of the pinned build (on the simulated disk)
     g = StoreW(seed, "C05", ntok=2, big=(seed % 2 == 0))
     g.knobs["short_io"] = False
+    if db: g.knobs["conf"]["objectstore.backend"] = "db"
     r = g.r
     g.begin()
     for t in g.toks():
@@ -26,7 +28,9 @@ def main():
             if op and any(e[0] in (K.CKA_START_DATE, K.CKA_END_DATE) for e in op[0]["tmpl"]) and any(e[0] == K.CKA_PRIVATE and e[2] == "01" for e in op[0]["tmpl"]):
                 ref = op[0]["out"]; del g.ops[0][before:]; g.w.objs.pop(ref, None); continue
             break
-    g.s_gen(); g.s_gen(); g.s_genpair(); g.s_unwrap(); g.s_derive(); g.s_copy(); g.s_setattr(); g.s_setattr(); g.s_destroy()
+    g.s_gen(); g.s_gen(); g.s_genpair(); g.s_unwrap(); g.s_derive()
+    if not db: g.s_copy()      # the pinned SQLite store copies CKA_CLASS only (defect repaired by ba31772): nothing worth recording
+    g.s_setattr(); g.s_setattr(); g.s_destroy()
     g.emit({"act": "restart"})
     sess = {}
     for t in g.toks():
@@ -40,6 +44,7 @@ def main():
     res = z.run(plan)
     assert not res.died, res.why()
     fx = {"seed": seed, "tokens": [], "files": {}}
+    if db: fx["backend"] = "db"
     for tid, k, op, ret in hist.walk(plan, res):
         if op.get("act") == "readout" and op.get("fixture"):
             t = op["fixture"]; objs_ = {}
@@ -47,6 +52,9 @@ def main():
                 assert e.get("ref"), e
                 # a date the pinned build stored unreadably is not a recorded value
                 objs_[e["ref"]] = {ts: rec for ts, rec in oj["attrs"].items() if ("v" in rec or "t" in rec)}
+                if db:
+                    # the pinned SQLite store cannot read these two back (defect repaired by 0b8c58d): what it answered is not a recorded value
+                    for ts in (str(K.CKA_DESTROYABLE), str(K.C.get("CKA_PUBLIC_KEY_INFO", 0x129))): objs_[e["ref"]].pop(ts, None)
             fx["tokens"].append({"ref": t, "so_pin": g.w.toks[t].so_pin.hex(), "user_pin": g.w.toks[t].user_pin.hex(), "objects": objs_})
         if op.get("act") == "disk":
             for path, ent in ret["tree"].items():
